@@ -402,13 +402,20 @@ func runC17(t *testing.T, spec RunSpec) *Verdict {
 			return v
 		}
 		// ... with that core's number: workers are spawned by main in order, so worker i is core 2+i
-		if !anyCore && !m.badCores[got.CoreNum] {
-			v.fail(P, "wrong-result", "wait-result-core", "fatal:core", fmt.Sprintf("Wait reported the interrupt for core %d, but only cores %v fail", got.CoreNum, coreList(m.badCores)))
-			return v
+		// ... an interrupt that one of the failing cores actually raised: its message names the worker.
+		// (How cores are numbered is not part of the property, so the reported number is only probed.)
+		if m.failMsgByCore {
+			okMsg := false
+			for c := range m.badCores {
+				okMsg = okMsg || strings.Contains(firstLine(got.Msg), fmt.Sprintf("boom%d", int(c)-2))
+			}
+			if !okMsg {
+				v.fail(P, "wrong-result", "wait-result-core", "fatal:message", fmt.Sprintf("Wait reported the message %q, which none of the failing workers %v raises", firstLine(got.Msg), coreList(m.badCores)))
+				return v
+			}
 		}
-		if m.failMsgByCore && !strings.Contains(firstLine(got.Msg), fmt.Sprintf("boom%d", int(got.CoreNum)-2)) {
-			v.fail(P, "wrong-result", "wait-result-core", "fatal:message", fmt.Sprintf("Wait reported core %d with the message %q of another core", got.CoreNum, firstLine(got.Msg)))
-			return v
+		if !anyCore && !m.badCores[got.CoreNum] {
+			res.Probes["reported-core-number-not-spawn-order"]++
 		}
 		for _, l := range final {
 			if !m.prefixOK[l] {
